@@ -79,10 +79,12 @@ def build_cli():
 
 # ----------------------------------------------------------------------------- driver
 
-def _run_driver_once(mode, jobs, threads):
+def _run_driver_once(mode, jobs, threads, job_timeout=None):
     env = dict(os.environ)
     env["VERIF_DRIVER_THREADS"] = str(threads)
     env["RUST_BACKTRACE"] = "0"
+    if job_timeout:
+        env["VERIF_DRIVER_JOB_TIMEOUT"] = str(job_timeout)
     env.pop("RUST_LOG", None)
     data = "\n".join(json.dumps(j) for j in jobs) + "\n"
     r = subprocess.run([DRIVER, mode], input=data, capture_output=True, text=True, env=env)
@@ -94,20 +96,34 @@ def _run_driver_once(mode, jobs, threads):
     return out, r
 
 
-def run_driver(mode, jobs, threads=None):
-    """Run a batch through the real library code. Returns results in job order. A job that kills the
-    driver process (stack overflow, abort) is isolated by bisection and reported as status "abort"."""
+def run_driver(mode, jobs, threads=None, job_timeout=None):
+    """Run a batch through the real library code. Returns results in job order. A job that kills the driver process
+    (stack overflow, abort) is isolated by bisection and reported as status "abort"; a job that does not finish within
+    job_timeout seconds (VERIF_DRIVER_JOB_TIMEOUT, default 20; jobs take milliseconds) is reported as status "hang"."""
     if not jobs:
         return []
-    out, r = _run_driver_once(mode, jobs, threads or min(NCPU, 16))
+    out, r = _run_driver_once(mode, jobs, threads or min(NCPU, 16), job_timeout)
     if out is not None:
         return out
+    hung_idx = {int(x) for x in re.findall(r"^HANG (\d+)$", r.stderr or "", re.M)}
+    if r.returncode == 3 and hung_idx:
+        # the driver's watchdog fired: keep the results it printed, mark the stuck jobs, re-run what is left
+        limit = job_timeout or os.environ.get("VERIF_DRIVER_JOB_TIMEOUT", "20")
+        have = {}
+        for l in r.stdout.splitlines():
+            if l.startswith('{"_k":'):
+                d = json.loads(l)
+                have[d["_k"]] = d["r"]
+        rest_k = [k for k in range(len(jobs)) if k not in have and k not in hung_idx]
+        rest_out = dict(zip(rest_k, run_driver(mode, [jobs[k] for k in rest_k], threads, job_timeout)))
+        return [{"id": jobs[k].get("id"), "status": "hang", "panic": f"no result after {limit} s"} if k in hung_idx
+                else have[k] if k in have else rest_out[k] for k in range(len(jobs))]
     if r.returncode > 0 and r.returncode != 134:
         raise ToolError(f"driver {mode} exited {r.returncode}: {r.stderr[-2000:]}")
     if len(jobs) == 1:
         return [{"id": jobs[0].get("id"), "status": "abort", "panic": f"process killed (rc={r.returncode}): {r.stderr[-300:].strip()}"}]
     mid = len(jobs) // 2
-    return run_driver(mode, jobs[:mid], threads) + run_driver(mode, jobs[mid:], threads)
+    return run_driver(mode, jobs[:mid], threads, job_timeout) + run_driver(mode, jobs[mid:], threads, job_timeout)
 
 
 # ----------------------------------------------------------------------------- TLC
